@@ -28,6 +28,7 @@ inductive Err where
   | valueError        -- ValueError (LibsvmReader unpacking)
   | indexError        -- IndexError
   | cobaException     -- CobaException (ARFF column count)
+  | typeError         -- TypeError
   deriving DecidableEq, Repr
 
 /-! ## A.1 UTF-8 -/
@@ -733,5 +734,487 @@ character occurs in no value (it would be written escaped and send coba to its f
 def arffRowOk (q : Nat) (row : List (Bool × Text)) : Bool :=
   row ≠ [] && row.all (fun x => x.2.all (fun c => !(isNl c) && !((c == SQ || c == DQ) && c != q))) &&
   (match row with | [x] => x.2 ≠ [] || x.1 | _ => true)
+
+
+/-! ## D. the whole ARFF reader: attribute header, data section, rows (coba/pipes/readers.py)
+
+`ArffReader.filter` = strip/drop blank lines, split at `@data`, `ArffAttrReader` on the
+`@attr…` lines, detect dense/sparse on the first non-comment data line, `ArffDataReader`
+(comment lines, `missing` flag), `ArffLineReader` per line, encoders applied by
+`LazyDense`/`LazySparse` when the row is materialised. -/
+
+def lstrip (t : Text) : Text := t.dropWhile isPySpace
+def rstrip (t : Text) : Text := (t.reverse.dropWhile isPySpace).reverse
+
+/-- `str.lower()` on the ASCII range (the keywords and type names are ASCII; other characters
+are left alone — CPython's full Unicode lowering is not modelled) -/
+def lowerAscii (t : Text) : Text := t.map (fun c => if 65 ≤ c ∧ c ≤ 90 then c + 32 else c)
+
+def isQuoteCh (c : Nat) : Bool := c == DQ || c == SQ
+
+/-! ### D.1 `ArffAttrReader._split` -/
+
+/-- `re.compile("(\s+)").split(line)`: text pieces and the white-space runs between them, alternating -/
+def splitWsGo (cur : Text) (inWs : Bool) : Text → List Text
+  | [] => [cur]
+  | c :: t =>
+    if isPySpace c then
+      (if inWs then splitWsGo (cur ++ [c]) true t else cur :: splitWsGo [c] true t)
+    else
+      (if inWs then cur :: splitWsGo [c] false t else splitWsGo (cur ++ [c]) false t)
+
+def splitWs (t : Text) : List Text := splitWsGo [] false t
+
+/-- `re.compile("(,)").split(line)`: text pieces and the commas between them -/
+def splitCommaGo (cur : Text) : Text → List Text
+  | [] => [cur]
+  | c :: t => if c = COMMA then cur :: [COMMA] :: splitCommaGo [] t else splitCommaGo (cur ++ [c]) t
+
+def splitComma (t : Text) : List Text := splitCommaGo [] t
+
+/-- which of the two patterns `_split` was called with -/
+inductive Pat where | ws | comma
+  deriving DecidableEq, Repr
+
+def Pat.pieces : Pat → Text → List Text
+  | .ws, t => splitWs t
+  | .comma, t => splitComma t
+
+/-- `pattern.match(item)` (at the start of the item) -/
+def Pat.matchStart : Pat → Text → Bool
+  | .ws, t => (match t with | c :: _ => isPySpace c | [] => false)
+  | .comma, t => (match t with | c :: _ => c == COMMA | [] => false)
+
+inductive Settle where
+  | more                 -- the `while` condition holds: `item += next(items)`
+  | done (v : Text)      -- the item is complete: this is what is yielded
+  | indexError           -- `item.rstrip()[-2]` on a one-character string
+  deriving DecidableEq, Repr
+
+/-- the `while item.rstrip()[-1] != q or item.rstrip()[-2]=="\\"` test for a quoted item and,
+when it ends, `item.strip().rstrip()[1:-1].replace("\\",'')` -/
+def settle (item : Text) : Settle :=
+  let r := rstrip item
+  match item.head?, r.getLast? with
+  | some q, some l =>
+    if l ≠ q then .more
+    else if r.length < 2 then .indexError
+    else if r.dropLast.getLast? = some BS then .more
+    else .done ((r.tail.dropLast).filter (· != BS))
+  | _, _ => .more
+
+/-- the generator `_split(line, pattern, n)` as a machine that consumes one piece per step;
+`acc = some item` while a quoted item is being glued together.  Running out of pieces is the
+swallowed `StopIteration`: the generator just ends. -/
+def splitLoop (P : Pat) (n : Option Nat) : Nat → Option Text → List Text → Except Err (List Text)
+  | _, _, [] => .ok []
+  | count, none, p :: ps =>
+    let item := lstrip p
+    if item = [] ∨ P.matchStart item = true then splitLoop P n count none ps
+    else if n = some (count + 1) then .ok [strip (item ++ ps.flatten)]
+    else if (match item with | c :: _ => isQuoteCh c | [] => false) then
+      match settle item with
+      | .more => splitLoop P n (count + 1) (some item) ps
+      | .indexError => .error .indexError
+      | .done v => (match splitLoop P n (count + 1) none ps with | .error e => .error e | .ok r => .ok (v :: r))
+    else
+      match splitLoop P n (count + 1) none ps with
+      | .error e => .error e
+      | .ok r => .ok (strip item :: r)
+  | count, some item, p :: ps =>
+    let item1 := item ++ p
+    match settle item1 with
+    | .more => splitLoop P n count (some item1) ps
+    | .indexError => .error .indexError
+    | .done v => (match splitLoop P n count none ps with | .error e => .error e | .ok r => .ok (v :: r))
+
+def arffSplit (P : Pat) (n : Option Nat) (line : Text) : Except Err (List Text) :=
+  splitLoop P n 0 none (P.pieces line)
+
+/-! ### D.2 encoders -/
+
+/-- what `_encoder` returns -/
+inductive Enc where
+  | numeric                       -- `float`
+  | str                           -- `lambda x: None if x == "?" else x`
+  | nominal (levels : List Text)  -- `CategoricalDict(...).__getitem__`, the levels in `Categorical.levels` order
+  deriving DecidableEq, Repr
+
+/-- a parsed cell -/
+inductive Cell where
+  | missing
+  | num (tok : Text)              -- `float(tok)` (the conversion itself is CPython's)
+  | str (s : Text)
+  | cat (s : Text) (levels : List Text)
+  deriving DecidableEq, Repr
+
+def textLe : Text → Text → Bool
+  | [], _ => true
+  | _ :: _, [] => false
+  | a :: s, b :: t => a < b || (a == b && textLe s t)
+
+def insertSorted (x : Text) : List Text → List Text
+  | [] => [x]
+  | y :: ys => if textLe x y then x :: y :: ys else y :: insertSorted x ys
+
+def dedup : List Text → List Text
+  | [] => []
+  | x :: xs => if xs.contains x then dedup xs else x :: dedup xs
+
+/-- `sorted(set(values))` -/
+def sortedSet (vs : List Text) : List Text := (dedup vs).foldr insertSorted []
+
+/-- `CategoricalEncoder(values)`: the level order is the given one unless a value repeats, then
+`sorted(set(values))`; no values at all → `CategoricalDict(None)` raises TypeError -/
+def catLevels (vs : List Text) : Except Err (List Text) :=
+  if vs = [] then .error .typeError
+  else if (dedup vs).length ≠ vs.length then .ok (sortedSet vs) else .ok vs
+
+def startsWith (p t : Text) : Bool := t.take p.length == p
+
+def kwNumeric : List Text := [[110,117,109,101,114,105,99], [105,110,116,101,103,101,114], [114,101,97,108]]
+def kwString : List Text := [[115,116,114,105,110,103], [100,97,116,101], [114,101,108,97,116,105,111,110,97,108]]
+def LBRACE : Nat := 123
+def RBRACE : Nat := 125
+def PCT : Nat := 37
+def QM : Nat := 63
+def ZERO : Text := [48]
+
+/-- `ArffAttrReader._encoder(encoding)` -/
+def arffEncoder (isDense : Bool) (encoding : Text) : Except Err Enc :=
+  let low := lowerAscii encoding
+  if kwNumeric.contains low then .ok .numeric
+  else if kwString.any (fun k => startsWith k low) then .ok .str
+  else if encoding.head? = some LBRACE then
+    match arffSplit .comma none encoding.tail.dropLast with
+    | .error e => .error e
+    | .ok cats =>
+      match catLevels (if isDense then cats else ZERO :: cats) with
+      | .error e => .error e
+      | .ok lv => .ok (.nominal lv)
+  else .error .cobaException
+
+def kwAttribute : Text := [64,97,116,116,114,105,98,117,116,101]
+def kwAttr : Text := [64,97,116,116,114]
+def kwData : Text := [64,100,97,116,97]
+
+/-- `ArffAttrReader.filter(lines)`: `header, encoding = tuple(_split(line[11:], r_space, n=2))`
+(ValueError unless exactly two), duplicate names rejected -/
+def arffAttrs (isDense : Bool) (seen : List Text) : List Text → Except Err (List (Text × Enc))
+  | [] => .ok []
+  | line :: ls =>
+    if lowerAscii (line.take 10) = kwAttribute then
+      match arffSplit .ws (some 2) (line.drop 11) with
+      | .error e => .error e
+      | .ok [header, encoding] =>
+        if seen.contains header then .error .cobaException
+        else match arffEncoder isDense encoding with
+          | .error e => .error e
+          | .ok enc => match arffAttrs isDense (header :: seen) ls with
+            | .error e => .error e
+            | .ok r => .ok ((header, enc) :: r)
+      | .ok _ => .error .valueError
+    else arffAttrs isDense seen ls
+
+/-! ### D.3 data section -/
+
+def hasSub (p t : Text) : Bool :=
+  match t with
+  | [] => p.isEmpty
+  | _ :: t' => startsWith p t || hasSub p t'
+
+/-- `line.translate(_trans)`: blanks, tab, newline, CR, VT, FF removed -/
+def compact (t : Text) : Text := t.filter (fun c => !(c == 32 || c == 9 || c == 10 || c == 13 || c == 11 || c == 12))
+
+def endsWith (p t : Text) : Bool := startsWith p.reverse t.reverse
+
+/-- `ArffDataReader._dense`: the `missing` flag of a line (repaired: `compact == '?'`) -/
+def denseMissing (line : Text) : Bool :=
+  if !line.contains QM then false
+  else if line.take 2 = [QM, COMMA] then true
+  else if endsWith [COMMA, QM] line then true
+  else
+    let c := compact line
+    c = [QM] || c.take 2 = [QM, COMMA] || hasSub [COMMA, QM, COMMA] c || endsWith [COMMA, QM] c
+
+/-- `ArffDataReader._sparse` -/
+def sparseMissing (line : Text) : Bool := hasSub [32, QM, COMMA] line || endsWith [32, QM, RBRACE] line
+
+/-- the white-space / comma tokenizer of `_sparse`: `re.split('\s*,\s*|\s+', text)`.
+state 0 = in a token, 1 = in a separator (white space only so far), 2 = in a separator after its comma -/
+def sparseSplitGo (cur : Text) : Nat → Text → List Text
+  | st, [] => if st = 0 then [cur] else [[]]
+  | st, c :: t =>
+    if isPySpace c then (if st = 0 then cur :: sparseSplitGo [] 1 t else sparseSplitGo [] st t)
+    else if c = COMMA then
+      (if st = 0 then cur :: sparseSplitGo [] 2 t else if st = 1 then sparseSplitGo [] 2 t else [] :: sparseSplitGo [] 2 t)
+    else (if st = 0 then sparseSplitGo (cur ++ [c]) 0 t else sparseSplitGo [c] 0 t)
+
+def sparseSplit (t : Text) : List Text := sparseSplitGo [] 0 t
+
+/-- `line.strip("} {")` -/
+def stripBraces (t : Text) : Text :=
+  let p := fun c => c == RBRACE || c == 32 || c == LBRACE
+  ((t.dropWhile p).reverse.dropWhile p).reverse
+
+def isDigit (c : Nat) : Bool := 48 ≤ c && c ≤ 57
+
+/-- `int(tok)` for ASCII decimal literals with optional sign and surrounding white space
+(underscores and non-ASCII digits, which CPython also accepts, are not modelled) -/
+def parseInt (tok : Text) : Option Int :=
+  let t := strip tok
+  let (neg, ds) := match t with
+    | 45 :: r => (true, r)
+    | 43 :: r => (false, r)
+    | _ => (false, t)
+  if ds = [] ∨ !ds.all isDigit then none
+  else
+    let v : Nat := ds.foldl (fun a c => a * 10 + (c - 48)) 0
+    some (if neg then -(v : Int) else (v : Int))
+
+def evens : List Text → List Text
+  | [] => []
+  | [x] => [x]
+  | x :: _ :: r => x :: evens r
+
+def odds : List Text → List Text
+  | [] => []
+  | [_] => []
+  | _ :: y :: r => y :: odds r
+
+def parseKeys : List Text → Except Err (List Int)
+  | [] => .ok []
+  | k :: ks => match parseInt k with
+    | none => .error .valueError
+    | some i => match parseKeys ks with
+      | .error e => .error e
+      | .ok r => .ok (i :: r)
+
+/-- `dict(zip(keys, vals))`: insertion order of first occurrence, the last value wins -/
+def dictOf : List (Int × Text) → List (Int × Text)
+  | [] => []
+  | (k, v) :: r =>
+    let d := dictOf r
+    match d.find? (·.1 = k) with
+    | some _ => (k, (match (r.reverse.find? (·.1 = k)) with | some kv => kv.2 | none => v)) :: d.filter (·.1 ≠ k)
+    | none => (k, v) :: d
+
+/-- `ArffLineReader._sparse(line)` -/
+def arffSparseLine (n : Nat) (line : Text) : Except Err (List (Int × Text)) :=
+  let kv := sparseSplit (stripBraces line)
+  if kv = [[]] then .ok []
+  else match parseKeys (evens kv) with
+    | .error e => .error e
+    | .ok keys =>
+      let d := dictOf (keys.zip (odds kv))
+      if d.any (fun p => p.1 < 0 || (n : Int) ≤ p.1) then .error .cobaException else .ok d
+
+/-! ### D.4 `_dense_advanced` (the fallback parser) and the complete dense line reader -/
+
+def splitOnList (sep : Nat) (t : Text) : List Text := splitOn sep t
+
+/-- the `while d_line:` loop; `acc = some item` while a quoted item is being glued (with `","`) -/
+def advLoop : Option Text → List Text → Except Err (List Text)
+  | none, [] => .ok []
+  | some _, [] => .error .indexError                -- `pop from an empty deque`
+  | none, p :: ps =>
+    let item := lstrip p
+    match item with
+    | [] => .error .indexError                      -- `item[0]` on an empty string
+    | c :: _ =>
+      if isQuoteCh c then
+        let r := rstrip item
+        if r.getLast? ≠ some c then advLoop (some item) ps
+        else if r.length < 2 then .error .indexError
+        else if r.dropLast.getLast? = some BS then advLoop (some item) ps
+        else (match advLoop none ps with | .error e => .error e | .ok rest => .ok (((strip item).tail.dropLast).filter (· != BS) :: rest))
+      else (match advLoop none ps with | .error e => .error e | .ok rest => .ok (item.filter (· != BS) :: rest))
+  | some item, p :: ps =>
+    let item1 := item ++ COMMA :: p
+    let r := rstrip item1
+    if r.getLast? ≠ item1.head? then advLoop (some item1) ps
+    else if r.length < 2 then .error .indexError
+    else if r.dropLast.getLast? = some BS then advLoop (some item1) ps
+    else (match advLoop none ps with | .error e => .error e | .ok rest => .ok (((strip item1).tail.dropLast).filter (· != BS) :: rest))
+
+/-- full state of a dense ArffLineReader -/
+structure ALRF where
+  started : Bool
+  advanced : Bool
+  qc : Option Nat
+  delim : Nat
+  fallback : Option Nat      -- `_fallback_delim`
+  deriving DecidableEq, Repr
+
+def ALRF.init : ALRF := ⟨false, false, none, COMMA, none⟩
+
+def arffAdvanced (n : Nat) (s : ALRF) (line : Text) : Except Err (ALRF × List Text) :=
+  let fd := match s.fallback with
+    | some d => d
+    | none => if (splitOn COMMA line).length > (splitOn TAB line).length then COMMA else TAB
+  match advLoop none (splitOn fd line) with
+  | .error e => .error e
+  | .ok parsed =>
+    if parsed.length = n then .ok ({ s with advanced := true, fallback := some fd }, parsed) else .error .cobaException
+
+/-- `_dense_simple` with the switch to the fallback parser -/
+def arffSimpleF (n : Nat) (s : ALRF) (line : Text) : Except Err (ALRF × List Text) :=
+  match simpleQuote s.qc line with
+  | none =>
+    -- the first of the two tests may already have stored `"` before the second one bails out
+    let qc1 := if line.contains DQ && s.qc = none then some DQ else s.qc
+    arffAdvanced n { s with qc := qc1 } line
+  | some qc1 =>
+    match csvFirst (arffDialect s.delim qc1) line with
+    | .error e => .error e
+    | .ok r => if r.length = n then .ok ({ s with qc := qc1 }, r) else .error .cobaException
+
+def arffFirstF (n : Nat) (line : Text) : Except Err (ALRF × List Text) :=
+  let hasDq := line.contains DQ
+  let hasSq := line.contains SQ
+  let both := hasDq && hasSq
+  let qc : Option Nat := if both then none else if hasDq then some DQ else if hasSq then some SQ else none
+  match csvFirst (arffDialect COMMA qc) line with
+  | .error e => .error e
+  | .ok r =>
+    if r.length = n then
+      (if both then arffAdvanced n ⟨true, true, qc, COMMA, none⟩ line else arffSimpleF n ⟨true, false, qc, COMMA, none⟩ line)
+    else match csvFirst (arffDialect TAB qc) line with
+      | .error e => .error e
+      | .ok r2 =>
+        if r2.length = n then
+          (if both then arffAdvanced n ⟨true, true, qc, TAB, none⟩ line else arffSimpleF n ⟨true, false, qc, TAB, none⟩ line)
+        else arffAdvanced n ⟨true, true, qc, COMMA, none⟩ line
+
+def arffLineStepF (n : Nat) (s : ALRF) (line : Text) : Except Err (ALRF × List Text) :=
+  if s.advanced then arffAdvanced n s line
+  else if s.started then arffSimpleF n s line
+  else arffFirstF n line
+
+/-! ### D.5 rows -/
+
+/-- `float(tok)` succeeds: decimal literal with optional sign, fraction, exponent, `inf`/`nan`,
+surrounding white space (underscores are not modelled) -/
+def isFloatLit (tok : Text) : Bool :=
+  let t := lowerAscii (strip tok)
+  let t := match t with | 45 :: r => r | 43 :: r => r | _ => t
+  let special : List Text := [[105,110,102], [105,110,102,105,110,105,116,121], [110,97,110]]
+  if special.contains t then true
+  else
+    let intPart := t.takeWhile isDigit
+    let r1 := t.dropWhile isDigit
+    let (frac, r2) := match r1 with
+      | 46 :: r => (r.takeWhile isDigit, r.dropWhile isDigit)
+      | _ => ([], r1)
+    let hasDot := r1.head? = some 46
+    let mant := intPart ≠ [] ∨ (hasDot ∧ frac ≠ [])
+    let expOk := match r2 with
+      | [] => true
+      | 101 :: r =>
+        let r := match r with | 45 :: x => x | 43 :: x => x | _ => r
+        r ≠ [] && r.all isDigit
+      | _ => false
+    decide mant && expOk
+
+/-- an encoder applied to a raw value the way `LazyDense`/`LazySparse` do: when the encoder
+raises, `'?'` and `''` become None, anything else re-raises -/
+def encodeCell (e : Enc) (v : Text) : Except Err Cell :=
+  match e with
+  | .numeric => if isFloatLit v then .ok (.num v) else if v = [QM] ∨ v = [] then .ok .missing else .error .valueError
+  | .str => if v = [QM] then .ok .missing else .ok (.str v)
+  | .nominal lv => if lv.contains v then .ok (.cat v lv) else if v = [QM] ∨ v = [] then .ok .missing else .error .cobaException
+
+def encodeRow : List Enc → List Text → Except Err (List Cell)
+  | e :: es, v :: vs => (match encodeCell e v with
+    | .error er => .error er
+    | .ok c => match encodeRow es vs with | .error er => .error er | .ok r => .ok (c :: r))
+  | _, _ => .ok []
+
+structure DenseRow where
+  cells : List Cell
+  missing : Bool
+  deriving DecidableEq, Repr
+
+structure SparseRow where
+  items : List (Text × Cell)     -- column name ↦ value, for the written keys and the "not sparse" columns
+  missing : Bool
+  deriving DecidableEq, Repr
+
+inductive ArffResult where
+  | dense (names : List Text) (rows : List DenseRow)
+  | sparse (names : List Text) (rows : List SparseRow)
+  | empty
+  deriving DecidableEq, Repr
+
+def denseRows (encs : List Enc) (n : Nat) (s : ALRF) : List Text → Except Err (List DenseRow)
+  | [] => .ok []
+  | line :: ls =>
+    if line.head? = some PCT then denseRows encs n s ls
+    else match arffLineStepF n s line with
+      | .error e => .error e
+      | .ok (s1, raw) => match encodeRow encs raw with
+        | .error e => .error e
+        | .ok cells => match denseRows encs n s1 ls with
+          | .error e => .error e
+          | .ok r => .ok (⟨cells, denseMissing line⟩ :: r)
+
+def nthD {α} (l : List α) (i : Nat) : Option α := l[i]?
+
+/-- the columns whose encoder does not send `'0'` to 0: they appear in every sparse row -/
+def notSparse (encs : List Enc) : List Nat :=
+  (List.range encs.length).filter (fun i => match nthD encs i with
+    | some .numeric => false
+    | some .str => true
+    | some (.nominal lv) => lv.contains ZERO
+    | none => false)
+
+def sparseItems (names : List Text) (encs : List Enc) : List (Int × Text) → Except Err (List (Text × Cell))
+  | [] => .ok []
+  | (k, v) :: r =>
+    match nthD names k.toNat, nthD encs k.toNat with
+    | some nm, some e => (match encodeCell e v with
+      | .error er => .error er
+      | .ok c => match sparseItems names encs r with | .error er => .error er | .ok rest => .ok ((nm, c) :: rest))
+    | _, _ => sparseItems names encs r
+
+def sparseRows (names : List Text) (encs : List Enc) (n : Nat) : List Text → Except Err (List SparseRow)
+  | [] => .ok []
+  | line :: ls =>
+    if line.head? = some PCT then sparseRows names encs n ls
+    else match arffSparseLine n line with
+      | .error e => .error e
+      | .ok raw =>
+        let extra := ((notSparse encs).filter (fun i => !(raw.any (fun p => p.1 = (i : Int))))).map (fun i => ((i : Int), ZERO))
+        match sparseItems names encs (raw ++ extra) with
+        | .error e => .error e
+        | .ok items => match sparseRows names encs n ls with
+          | .error e => .error e
+          | .ok r => .ok (⟨items, sparseMissing line⟩ :: r)
+
+/-- `list(ArffReader().filter(lines))` with every row materialised -/
+def arffRead (lines : List Text) : Except Err ArffResult :=
+  let ls := (lines.map strip).filter (· ≠ [])
+  let head := ls.takeWhile (fun l => lowerAscii l ≠ kwData)
+  let attrLines := head.filter (fun l => lowerAscii (l.take 5) = kwAttr)
+  let data := (ls.dropWhile (fun l => lowerAscii l ≠ kwData)).drop 1
+  let data := data.dropWhile (fun l => l.head? = some PCT)
+  match data with
+  | [] => .ok .empty
+  | first :: _ =>
+    let isDense := !(first.head? = some LBRACE) || !(first.getLast? = some RBRACE)
+    match arffAttrs isDense [] attrLines with
+    | .error e => .error e
+    | .ok [] => .error .valueError                 -- `headers,encoders = zip(*[])`
+    | .ok attrs =>
+      let names := attrs.map (·.1)
+      let encs := attrs.map (·.2)
+      if isDense then
+        match denseRows encs attrLines.length ALRF.init data with
+        | .error e => .error e
+        | .ok rows => .ok (.dense names rows)
+      else
+        match sparseRows names encs attrLines.length data with
+        | .error e => .error e
+        | .ok rows => .ok (.sparse names rows)
 
 end Coba.C12
